@@ -24,7 +24,7 @@ for pid, (text, note, tech, ref) in sorted(CLAIMED.items()):
 m = dict(
     version=1,
     setup_cmd="./setup.sh",
-    hooks=dict(guard="NXP_IMX_ETHOS_U_VELA_VERIF", enable="no source hooks: contracts are sidecars in /verif/contracts; the guard only enables the optional run-time contract monitor (pytest plugin in /verif)",
+    hooks=dict(guard="NXP_IMX_ETHOS_U_VELA_VERIF", enable="no source hooks exist in /repo: contracts are sidecars in /verif/contracts and the real source is re-parsed on every run; the guard name is reserved and currently switches nothing",
                baseline_off_cmd="cd /repo && /venv/bin/python -m pytest -ra -q -p no:cacheprovider --timeout=900 --continue-on-collection-errors",
                source_commits=SOURCE_COMMITS, add_only=True),
     engines=[dict(name="pyvc", path="/verif/pyvc", serves_properties=sorted(CLAIMED),
